@@ -19,8 +19,9 @@ def run(res, tier, seed, replay):
     histlib.check_histories(res, "c03", 0, seed + 34, "ranges", extra_lines=mo)
     import arenalib, random
     rr = random.Random(seed + 33)
-    modes = ["neigh"] * 6 + ["straddle"] * 6 + ["alias"] * 6 + ["foreign_lo"] * 4 + ["packed"] * 3 + ["page0"] * 2
-    if tier == "thorough": modes = modes * 20
+    modes = ["neigh"] * 6 + ["straddle"] * 6 + ["alias"] * 6 + ["foreign_lo"] * 4 + ["packed"] * 3 + ["page0"] * 2 + ["cet"] * 2
+    if tier == "thorough": modes = modes * 20 + ["mass350"]
+    modes += ["mass350"]          # 350 fakes alive in one injector, somebody else's code pages next to the first pages the allocator can use
     histlib.check_histories(res, "c03", 0, seed + 33, "ranges", extra_lines=[arenalib.gen(rr, f"a{i}", mode=m) for i, m in enumerate(modes)])
     # crowded lifetimes: 9-24 installations alive in one injector
     histlib.check_histories(res, "c03", 12 if tier == "quick" else 400, seed + 34, "ranges", gen=histlib.gen_crowded_history)
